@@ -27,6 +27,16 @@ def s(n):
     return t
 
 
+def kk(n, inner):
+    t = inner
+    for _ in range(n):
+        t = C("k", t)
+    return t
+
+
+PQ_FACTS = [C("pq", C("h", kk(30, A("a")), V(0)), A("one")), C("pq", V(0), A("two")), C("pq", C("h", V(0), V(1)), A("three"))]
+
+
 def program():
     X, Y, N, T = V(0), V(1), V(2), V(3)
     return {
@@ -64,6 +74,9 @@ def queries(tier):
     L.append((C("item", V(0), s(60)), 1, 0))
     # the deepest point of the search is a lookup of dynamic facts (ok, first/1 are asserted, not compiled)
     L.append((C("go", V(0)), 1, 0))
+    # dynamic facts pq(h(k^30(a),_),one), pq(_,two), pq(h(_,_),three): the first answer needs a deep nested unification
+    # of the arguments, the second none - an overflow in the first must end the call, not skip to the second
+    L.append((C("pq", C("h", V(0), kk(30, V(0))), V(1)), 2, 0))
     return L
 
 
@@ -102,6 +115,10 @@ def record_runs(scn, refs, tier, seed):
         if goal["n"] == "go":
             yp.assert_fact(yp.atom("ok"), [])
             yp.assert_fact(yp.atom("first"), [yp.atom("one")])
+        if goal["n"] == "pq":
+            for f in PQ_FACTS:
+                e2 = {}
+                yp.assert_fact(yp.atom("pq"), [real.build(yp, a, e2) for a in f["a"]])
         env = {}
         vs = [real.build(yp, {"t": "v", "id": i}, env) for i in range(qnv)]
         args = [real.build(yp, a, env) for a in goal.get("a", [])]
@@ -183,7 +200,7 @@ def record_runs(scn, refs, tier, seed):
         # infinite searches: keep the limit low enough that the result stays within the known prefix
         hi = d0 + (need + 40 if need is not None else 60)
         # structure unifications (several argument pairs, an early one binding a variable): every limit
-        limits = list(range(d0 + 5, hi, 1 if goal["n"] in ("wide", "app", "item", "go") else step))
+        limits = list(range(d0 + 5, hi, 1 if goal["n"] in ("wide", "app", "item", "go", "pq") else step))
         rps = [0, 1, 2, max(len(answers), 1)]
         for L in limits:
             for ra in (rps if tier == "thorough" else [rps[(L // step) % len(rps)], 0]):
@@ -228,6 +245,8 @@ def family(chk, tier, seed, only=None):
         pre = [[{"op": "assert", "e": 1, "term": C("item", A("done"), V(0)), "atEnd": True, "r": 0}]] if g["n"] == "item" else []
         if g["n"] == "go":
             pre = [[{"op": "assert", "e": 1, "term": A("ok"), "atEnd": True, "r": 0}], [{"op": "assert", "e": 1, "term": C("first", A("one")), "atEnd": True, "r": 0}]]
+        if g["n"] == "pq":
+            pre = [[{"op": "assert", "e": 1, "term": f, "atEnd": True, "r": 0}] for f in PQ_FACTS]
         scns.append({"scripts": {"P": program()}, "steps": [steps[0]] + pre + [[{"op": "solve", "e": 1, "r": 1, "goal": g, "qnv": qnv, "k": k}]], "keys": []})
     recs, results = chk.machine_family("reference-searches", scns, max_steps=None)
     by_id = {r["id"]: r for r in recs}
